@@ -86,7 +86,7 @@ def gen_bo(tape, spec):
     cont = tape.int('continue_batches', 1, 3) * bs if tape.chance('continue', 1, 4) else 0
     if cont and bs > 1 and tape.chance('ragged_continue', 1, 2):
         cont += tape.int('ragged_c', 1, bs - 1)
-    return {'bounds': bounds, 'noise_form': nv, 'noise': noise, 'batch_size': bs, 'bpa': bpa,
+    cfg = {'bounds': bounds, 'noise_form': nv, 'noise': noise, 'batch_size': bs, 'bpa': bpa,
             'init_form': init_form, 'n_init': n_init, 'n_pre': n_pre, 'update_interval': ui,
             'acq': acq, 'n_evidence': n_evidence, 'continue': cont,
             'async': tape.chance('async_acq', 1, 4), 'seed': sr.gen_seed(tape),
@@ -105,7 +105,15 @@ def gen_bo(tape, spec):
             # fault: the client refuses ONE submission (transient scheduler / connection error)
             # after the batch was prepared; the user calls again
             'refuse_submit_at': tape.int('refused_submission', 1, 9)
-            if tape.chance('submission_refused', 1, 6) else None}
+            if tape.chance('submission_refused', 1, 5) else None}
+    if cfg['refuse_submit_at'] is not None and bpa >= 2 and \
+            tape.chance('refusal_inside_acquisition_group', 1, 2):
+        # place the fault where it leaves in-flight state behind: the refused submission is
+        # the SECOND batch of an acquisition group, whose points were already taken from the
+        # acquired set
+        init_batches = -(-n_init // bs) if init_form == 'count' else 0
+        cfg['refuse_submit_at'] = init_batches + tape.int('refused_group', 0, 2) * bpa + 2
+    return cfg
 
 
 def tm_xy(tm):
